@@ -16,7 +16,7 @@ pub enum Op {
     EepromReadRaw,
     EepromReadTyped,
     SdoRead,
-    SdoReadSegmented,
+    SdoReadNormal,
     SdoWrite,
     IntoSafeOp,
     IntoOp,
@@ -29,7 +29,7 @@ const OPS: [Op; 10] = [
     Op::EepromReadRaw,
     Op::EepromReadTyped,
     Op::SdoRead,
-    Op::SdoReadSegmented,
+    Op::SdoReadNormal,
     Op::SdoWrite,
     Op::IntoSafeOp,
     Op::IntoOp,
@@ -42,7 +42,7 @@ fn net2() -> Net {
     for d in seg.devices.iter_mut() {
         if let Some(c) = d.coe.as_mut() {
             c.od.insert((0x2000, 1), vec![0x11, 0x22, 0x33, 0x44]);
-            c.od.insert((0x2001, 0), (0..80u8).collect());
+            c.od.insert((0x2001, 0), (0..40u8).collect());
             c.od.insert((0x1c12, 0), vec![0]);
             c.od.insert((0x1c13, 0), vec![0]);
         }
@@ -91,7 +91,7 @@ fn run_op(op: Op, fault: Fault) -> (Result<String, String>, u64, u64, Option<Sto
                     }
                     Op::EepromReadTyped => sd.eeprom_read::<u32>(md, 8).await.map(|v| format!("{:#x}", v)),
                     Op::SdoRead => sd.sdo_read::<u32>(0x2000, 1).await.map(|v| format!("{:#x}", v)),
-                    Op::SdoReadSegmented => sd.sdo_read::<[u8; 80]>(0x2001, 0).await.map(|v| format!("{:02x?}", &v[..4])),
+                    Op::SdoReadNormal => sd.sdo_read::<[u8; 40]>(0x2001, 0).await.map(|v| format!("{:02x?}", &v[..4])),
                     Op::SdoWrite => sd.sdo_write(0x2000, 1, 0x55667788u32).await.map(|_| "written".to_string()),
                     _ => unreachable!(),
                 }
@@ -172,7 +172,7 @@ fn builders(viol: &mut Vec<(String, String)>, outcomes: &mut BTreeMap<String, u6
 
 pub fn c11(tier: &Tier) -> Result<i32, String> {
     let mut rep = Report::new("C11", "fault_enumeration", tier);
-    rep.rule = "(A) the four data-returning command builder methods x expected count 0..=3 x serviced count 0..=3 (absent address / wire rewriting the counter); (B) every listed entry point (register_read, register_write, status, eeprom_read_raw, eeprom_read, sdo_read expedited and segmented, sdo_write, into_safe_op, into_op) with the device dropping out after the j-th datagram addressed to it, for every j up to the number of datagrams the healthy operation uses; (C) the working counter of the k-th datagram of each operation rewritten to 0, 2 and 3 for every k; non-trivial = fault position inside the operation".into();
+    rep.rule = "(A) the four data-returning command builder methods x expected count 0..=3 x serviced count 0..=3 (absent address / wire rewriting the counter); (B) every listed entry point (register_read, register_write, status, eeprom_read_raw, eeprom_read, sdo_read expedited and normal, sdo_write, into_safe_op, into_op) with the device dropping out after the j-th datagram addressed to it, for every j up to the number of datagrams the healthy operation uses; (C) the working counter of the k-th datagram of each operation rewritten to 0, 2 and 3 for every k; non-trivial = fault position inside the operation".into();
     rep.assumptions = vec![
         "WorkingCounter{expected, received} is required where a single datagram carries the data or acknowledgement handed to the caller (builder methods; the last datagram of register/EEPROM/SDO reads); for multi-step operations whose device vanishes in the middle the requirement is 'never Ok' (DESIGN.md appendix E)".into(),
         "ignore_wkc() callers and WrappedWrite::send are exempt as the property states; a rewritten counter on such a datagram must simply not crash anything".into(),
@@ -240,7 +240,7 @@ pub fn c11(tier: &Tier) -> Result<i32, String> {
                                 viol.push((format!("panic op={:?}", op), format!("{:?} panicked when datagram {} came back with counter {}: {}", op, k, v, p)));
                                 continue;
                             }
-                            let is_final = k == dgrams && matches!(op, Op::RegisterRead | Op::RegisterWrite | Op::EepromReadRaw | Op::EepromReadTyped | Op::SdoRead | Op::SdoReadSegmented | Op::SdoWrite);
+                            let is_final = k == dgrams && matches!(op, Op::RegisterRead | Op::RegisterWrite | Op::EepromReadRaw | Op::EepromReadTyped | Op::SdoRead | Op::SdoReadNormal | Op::SdoWrite);
                             match &r {
                                 Ok(val) if is_final => viol.push((
                                     format!("data-returned-with-wrong-counter op={:?}", op),
